@@ -8,7 +8,7 @@
 From Coq Require Import ZArith List.
 Import ListNotations.
 
-Inductive err_class := EDivZero | ELabel | EOther.
+Inductive err_class := EDivZero | ELabel | EBounds | EOther.
 
 Inductive outcome (A : Type) : Type :=
 | Ok (x : A)
